@@ -81,6 +81,15 @@ chk("C07","E4-enum","exploration",
   "Decoder part: for 68 entry points, all byte strings of length 0..L over a per-decoder alphabet (raw and inside valid frames), every truncation / single-byte substitution (all 256 values) / two-position boundary substitution of seed messages produced by the stack's own encoders, line and token mutation of seed SDPs, long periodic packet histories; oracle = no panic (also in spawned tasks), < 50 ms and bounded allocation per call, sweeps in child processes so aborts and hangs are attributed. Live part (engine E2): about 1100 malformed SCTP packets (sealed under the genuine peer's DTLS keys) and 2300 DTLS datagrams injected into live endpoints at 2-3 stages each into both roles on the deterministic simulator; oracle = no task panics, execution finishes.",
   "Bounded sub-spaces only (stated in the evidence); allocation bound is a heuristic constant (64*len + 64 KiB, 1 MiB for PeerConnection-level entries); ICE/TURN private readers are not reached.",
   "exhaustive bounded input enumeration on the real decoders under a panic/time/allocation oracle, plus exhaustive catalogue injection into live endpoints on the simulator","DESIGN.md 4.7")
+
+chk("C10","E5-loopback","exploration",
+  "Every point of a configuration lattice (mode x media mix x bundle policy x rtcp-mux x ICE option {full, lite answerer, TCP, TCP-only, UDP mux} / latching {off, probation 0, 3} x SDP compatibility x offerer; quick = 192-point two-level sub-lattice, thorough = 1472 points incl. a TURN-relay region) is one run of two real PeerConnections over 127.0.0.1: offer/answer as text, both Connected, one data-channel message and one RTP sample per section each way byte-equal, complementary DTLS roles / a=crypto on both sides.",
+  "Real loopback sockets and wall-clock timeouts; a failing point is re-run three times outside the bulk pass and reported only if it fails every time in the same phase (otherwise FLAKY in the evidence). srflx / UPnP / external_ip configurations cannot exist offline.",
+  "exhaustive configuration-lattice enumeration on real loopback PeerConnections, thrice-confirmed","DESIGN.md 4.10")
+chk("C19","E3-hist","model_checking",
+  "Explicit-state history replay on fresh real RtpTransports. Demux: every registration set of <= 4 ops over {SSRC, RID, MID, PT lists, single PT, provisional} x 3 listeners (up to renaming) x receiver status x extension ids, crossed with all packet sequences (<= 2-3) plus canonical-state BFS, against a reference demultiplexer written from the statement. Bridge: 8 rule tables x all interleavings of two source streams over 8 step kinds (<= 5-8 packets) with output captured on the target's in-memory socket: stable SSRC/PT, consecutive sequence numbers, timestamp offsets constant between discontinuities.",
+  "Trusted: the BFS merge key (registry bookkeeping model calibrated against the real transport at start-up, merge cross-checked); closed receivers' registrations are optional in the oracle (statement silent); SRTP paths and concurrency not covered.",
+  "explicit-state search by history replay on real transports with a reference demultiplexer / continuity oracle","DESIGN.md 4.19")
 todo = {p: "check under construction in this round (DESIGN.md section 8 build order); not yet claimed" for p in props if p not in C}
 m = {"version": 1,
  "setup_cmd": "cd /verif/harness && CARGO_NET_OFFLINE=true cargo build --release --offline --workspace",
@@ -90,8 +99,8 @@ m = {"version": 1,
  "engines": [
   {"name":"E1-loom","path":"harness/h_loom","serves_properties":["C20"],"kind_free_text":"loom DPOR over the repository's spsc.rs/track.rs included textually with shadowed primitives"},
   {"name":"E2-sim","path":"harness/vh/src/{sim,sctp_sim,sctp_props,dtls_sim,explorer,wire}.rs + bin/{c02,c03,c11}.rs","serves_properties":["C01","C02","C03","C07","C11","C12","C13"],"kind_free_text":"deterministic two-endpoint simulator (real IceConn/DTLS/SCTP on an in-memory socket, paused tokio clock, seeded RNG) under a deviation-bounded fault explorer"},
-  {"name":"E5-loopback","path":"harness/vh/src/bin/c06.rs","serves_properties":["C06"],"kind_free_text":"finite lattices of configurations / credentials / crash points on real loopback sockets, thrice-confirmed"},
-  {"name":"E3-hist","path":"harness/vh/src/bin/{c05,c09,c14,c18}.rs","serves_properties":["C05","C09","C14","C18"],"kind_free_text":"explicit-state search over operation histories replayed on fresh real objects"},
+  {"name":"E5-loopback","path":"harness/vh/src/bin/{c06,c10}.rs","serves_properties":["C06","C10"],"kind_free_text":"finite lattices of configurations / credentials / crash points on real loopback sockets, thrice-confirmed"},
+  {"name":"E3-hist","path":"harness/vh/src/bin/{c05,c09,c14,c18,c19}.rs","serves_properties":["C05","C09","C14","C18","C19"],"kind_free_text":"explicit-state search over operation histories replayed on fresh real objects"},
   {"name":"E4-enum","path":"harness/vh/src/bin/{c04,c07,c15,c16}.rs + src/c07/","serves_properties":["C04","C07","C15","C16"],"kind_free_text":"complete enumeration of bounded input spaces against reference models / independent implementations"}],
  "checks": [C[p] for p in props if p in C],
  "not_applicable": [{"property_id": p, "reason": r} for p, r in todo.items()],
